@@ -36,7 +36,7 @@ Section Inv.
   Hypothesis Hft : from <> to.
   Hypothesis W : wfP s.
   Hypothesis V : staking_validate from to s = Ok tt.
-  Hypothesis X : staking_execute from to (bank_execute from to s) = Ok s1.
+  Hypothesis X : staking_execute from to (bank_move from to s) = Ok s1.
 
   Let s' := set_record from to s1.
   Let M : moved from to s s' := is_moved from to s s1 Hft W V X.
@@ -68,7 +68,7 @@ Section Inv.
   Lemma wf_after : wfP s'.
   Proof.
     constructor.
-    - unfold s'. rewrite (p_bal from to s s1 X). unfold bank_execute. cbn [bal set_bal].
+    - unfold s'. rewrite (p_bal from to s s1 X). unfold bank_move. cbn [bal set_bal].
       apply (bank_fold_nodup from to). apply (wf_bal s W).
     - unfold s'. rewrite (p_start from to s s1 X). apply start_fold_nodup. apply (wf_start s W).
     - unfold s'. rewrite (p_dels from to s s1 W X). apply (move_all_nodup Z.eqb Zeqb_ok). apply (wf_dels s W).
